@@ -161,6 +161,9 @@ def zeros(n):
     if n == 1: return Unit(BitVecVal(0, 8))
     return Concat(*[Unit(BitVecVal(0, 8))] * n)
 
+HOOKS = {'extract': None, 'len': None}
+CUR_STATE = [None]
+
 class Panic:
     def __init__(self, msg): self.msg = msg
     def __repr__(self): return 'Panic(%s)' % self.msg
@@ -169,10 +172,11 @@ class State:
     def __init__(self):
         self.store, self.pc, self.log, self.stack = {}, [], [], []
         self.facts, self.dotfree = [], []
+        self.known_len = {}
         self.next_cell = [0]
     def fork(self):
         s = State(); s.store = dict(self.store); s.pc = list(self.pc); s.log = list(self.log)
-        s.facts = list(self.facts); s.dotfree = self.dotfree
+        s.facts = list(self.facts); s.dotfree = self.dotfree; s.known_len = dict(self.known_len)
         s.stack = [dict(fr, locals=dict(fr['locals'])) for fr in self.stack]; s.next_cell = self.next_cell
         return s
     def new_cell(self, v=None):
@@ -189,7 +193,7 @@ def get_path(v, path):
         elif step[0] == 'dc':
             if v[0] != 'adt' or v[2] != step[1]: raise Unsupported('downcast %s of %s' % (step[1], str(v)[:60]))
         elif step[0] == 'slice':
-            v = simplify(Extract(v, step[1], step[2]))
+            v = HOOKS['extract'](CUR_STATE[0], v, step[1], step[2]) if HOOKS['extract'] else simplify(Extract(v, step[1], step[2]))
     return v
 
 def set_path(v, path, new):
@@ -198,6 +202,13 @@ def set_path(v, path, new):
     if step[0] == 'dc': return set_path(v, path[1:], new)
     if step[0] == 'slice':
         a, n = step[1], step[2]
+        if HOOKS['extract']:
+            xt, ln = HOOKS['extract'], HOOKS['len']; cs = CUR_STATE[0]
+            inner = set_path(xt(cs, v, a, n), path[1:], new)
+            total = ln(cs, v)
+            parts = [xt(cs, v, IntVal(0), a), inner, xt(cs, v, simplify(a + n), simplify(total - a - n))]
+            parts = [p_ for p_ in parts if not (is_app(p_) and p_.decl().kind() == Z3_OP_SEQ_EMPTY)]
+            return simplify(Concat(*parts)) if len(parts) > 1 else parts[0]
         inner = set_path(Extract(v, a, n), path[1:], new)
         return simplify(Concat(Extract(v, IntVal(0), a), inner, Extract(v, a + n, Length(v) - a - n)))
     i = step[1]
@@ -496,6 +507,7 @@ class Exec:
         if isinstance(v, tuple) and v[0] == 'ref': v = get_path(st.store[v[1]], v[2])
         if isinstance(v, tuple) and v[0] == 'array': return IntVal(len(v[1]))
         if isinstance(v, tuple) and v[0] == 'bytes_lit': return IntVal(len(v[1]))
+        if is_expr(v) and is_seq(v) and not is_string(v) and HOOKS['len']: return HOOKS['len'](st, v)
         if is_expr(v) and (is_seq(v) or is_string(v)): return Length(v)
         raise Unsupported('length of ' + str(v)[:60])
 
@@ -552,6 +564,7 @@ class Exec:
         return [('cont', st)]
 
     def step_block(self, st):
+        CUR_STATE[0] = st; self.stats['blocks'] = self.stats.get('blocks', 0) + 1
         fr = st.stack[-1]; fn = fr['fn']
         lines = fn.blocks[fr['bb']]
         for line in lines[:-1]: self.stmt(st, fr, line)
